@@ -467,13 +467,20 @@ def run(chk) -> None:
     try:
         from checks import c03e, c04, c04e
 
-        chk.robust |= {"stack-orientation"}
+        chk.robust |= {"stack-orientation", "sorted-emission"}
         sloop = c03.kd_loop(chk, fs)
         c04e.check_orientation(chk, fs, sloop, c03e.build_sites(fs, sloop), Folder(chk.repo, AN).fold, c04.make_label_of(chk.repo))
     except (c03e.NotReadable, c03e.SX.TooManyPaths) as ex:
         chk.error("stack-orientation", fs.where, f"orientation of the recorded stackings not readable: {str(ex)[:120]}")
-    outs = [l for l in ast.walk(fs.node) if isinstance(l, (ast.For, ast.comprehension)) and norm(l.iter) == "sorted(pairs)"]
-    chk.expect(len(outs) == 1, "sorted-emission", fs.where, "stackings are emitted from sorted(pairs)", "stackings are not emitted by iterating sorted(pairs)", K(fs, "emission"))
+    outs = [l for l in ast.walk(fs.node) if isinstance(l, (ast.For, ast.comprehension)) and isinstance(l.iter, ast.Call) and astq.callee_name(l.iter) == "sorted" and len(l.iter.args) == 1 and isinstance(l.iter.args[0], ast.Name)]
+    plain = [l for l in outs if not l.iter.keywords]
+    keyed = [l for l in outs if any(k.arg == "key" for k in l.iter.keywords)]
+    if len(outs) == 1 and keyed:
+        from checks import c11e
+
+        c11e.check_sort_key(chk, fs, keyed[0].iter, "sorted-emission", "stackings")
+    else:
+        chk.expect(len(plain) == 1, "sorted-emission", fs.where, "stackings are emitted from sorted(<recorded triples>)", "stackings are not emitted by iterating sorted(<recorded triples>)", K(fs, "emission"))
     for rule, n in (("saenger-symmetric", 1), ("bph-class-table", 19), ("contact-skips", 4), ("sorted-emission", 4), ("bph-merge", 3), ("bph-one-class", 1), ("saenger-lookup", 1)):
         chk.floor(rule, n)
 
